@@ -61,7 +61,9 @@ def case_st(draw):
     # phase 2: some inside entries are replaced by links to the outside, then the same spellings are requested again
     inside = [n["p"] for n in spec["nodes"] if n["t"] in ("file", "dir")]
     swaps = draw(st.lists(st.sampled_from(inside), max_size=2, unique=True)) if inside and draw(st.booleans()) else []
-    return {"tree": spec, "listing": draw(st.booleans()), "small_max": draw(st.integers(0, 4)) == 0, "reqs": reqs, "swaps": swaps}
+    return {"tree": spec, "listing": draw(st.booleans()), "small_max": draw(st.integers(0, 4)) == 0, "reqs": reqs, "swaps": swaps,
+            # how the document root is spelled in the configuration
+            "root_via": draw(st.sampled_from(["real", "real", "symlink", "dotdot", "relative"]))}
 
 
 def run_tree(case: dict):
@@ -73,7 +75,16 @@ def run_tree(case: dict):
     root = spec["root"]
     S = fsgen.build(spec)
     try:
-        handler = StaticFileHandler(os.path.join(S, root), enable_directory_listing=case["listing"],
+        root_arg = os.path.join(S, root)
+        via = case.get("root_via", "real")
+        if via == "symlink":
+            os.symlink(root, os.path.join(S, "current"))  # S/current -> capsule
+            root_arg = os.path.join(S, "current")
+        elif via == "dotdot":
+            root_arg = os.path.join(S, "outside", "..", root)
+        elif via == "relative":
+            root_arg = os.path.relpath(os.path.join(S, root))
+        handler = StaticFileHandler(root_arg, enable_directory_listing=case["listing"],
                                     max_file_size=100 if case["small_max"] else None)
         files = fsgen.all_files(S)  # (rel, bytes) real files
         by_rel = dict(files)
@@ -201,7 +212,7 @@ def _nontrivial(case, v):
 
 
 def _labels(case, v):
-    out = ["listing" if case["listing"] else "nolisting"]
+    out = ["listing" if case["listing"] else "nolisting", "root:" + case.get("root_via", "real")]
     kinds = {n["t"] for n in case["tree"]["nodes"]}
     out += ["tree:" + k for k in sorted(kinds)]
     if any(n["t"] == "link" and n["to"].startswith(("outside", "capsule-secret", "capsule2")) for n in case["tree"]["nodes"]):
